@@ -661,8 +661,8 @@ def subintervalise(x_: Interval, n: Union[int, tuple] = 0) -> Interval:
     """
     x = intervalise(x_)
     d = len(x.shape)  # dimension of the array
-    if n == 0 | n == 1:
-        return x  # should return a subtiling (sized interval)
+    if n in (0, 1):
+        n = 1  # no subdivision: the subtiling is the single tile x itself
     if x.scalar:  # or x.scalar == True
         xx = linspace(x.lo, x.hi, num=n + 1)
         return intervalise(vstack([xx[:-1], xx[1:]]))
